@@ -158,6 +158,11 @@ def _inline_into(prog, raw, block_ids, stack, depth):
             continue
         if callee.exp or ck in stack or is_anchored(ck):
             continue
+        decl = strip_generics(t.get("fn") or "")
+        if decl and decl != ck and decl.split("::")[0] in ("acmed", "tacd", "acme_common") and decl not in prog.bodies:
+            # a call through a workspace TRAIT method (`HookEnvData::set_env`): rules name the trait method, whatever impl it
+            # resolves to — a re-organised impl (blanket impl, moved impl) must not make these call sites disappear
+            continue
         is_async = callee.raw.get("is_async")
         src = prog.bodies.get(ck + "::{closure#0}") if is_async else callee
         if src is None or src.n > MAX_CALLEE_BLOCKS or (is_async and is_anchored(ck + "::{closure#0}")):
